@@ -426,8 +426,8 @@ class AverageBlockCollection(BlockCollection):
         Weighting is both by the block weight within the collection and the relative mass of the
         Component. The block weight is already scaled by the block volume, so we need to pull that
         out of the block weighting because it would effectively be double-counted in the component
-        mass. b.getHeight() is proportional to block volume, so it is used here as a computationally
-        cheaper proxy for scaling by block volume.
+        mass. The block volume (not the height) is used for that because blocks cut by a symmetry
+        line have a reduced volume and component mass at the same height.
 
         Returns
         -------
@@ -435,7 +435,7 @@ class AverageBlockCollection(BlockCollection):
             nucName, ndens data (atoms/bn-cm)
         """
         blocks = self.getCandidateBlocks()
-        weights = np.array([self.getWeight(b) / b.getHeight() for b in blocks])
+        weights = np.array([self.getWeight(b) / b.getVolume() for b in blocks])
         weights /= weights.sum()  # normalize by total weight
         components = [sorted(b.getComponents())[compIndex] for b in blocks]
         weightedAvgComponentMass = sum(
